@@ -44,7 +44,7 @@ class C10(CurveCheck):
         def scalars(n):
             return fixed + [rng.randrange(L) for _ in range(n)]
         # every scalar class x every torsion offset
-        for rep in range(3 if q else 60):
+        for rep in range(3 if q else 12):
             Bp = rand_point(rng)
             for a in scalars(2):
                 for i, t in enumerate(T):
@@ -53,7 +53,7 @@ class C10(CurveCheck):
             for i, t in enumerate(T):
                 cs.append(Case("derive %s %s" % (hx(le(a)), hx(ed.compress(t))), "derive:pure-torsion"))
             cs.append(Case("derive %s %s" % (hx(le(a)), hx(G)), "derive:basepoint"))
-        for _ in range(30 if q else 3000):
+        for _ in range(30 if q else 500):
             cs.append(Case("derive %s %s" % (hx(le(rng.randrange(L))), hx(ed.compress(rand_point(rng)))),
                            "derive:prime-order"))
         # rejected operands
@@ -63,13 +63,13 @@ class C10(CurveCheck):
         cs.append(Case("derive %s %s" % (ONE, hx(le(2))), "derive:rejected"))
         # one-time keys
         idxs = [0, 1, 127, 128, 255, 256, 16383, 16384, 2**32, 2**64 - 1]
-        for _ in range(6 if q else 300):
+        for _ in range(6 if q else 40):
             a = rng.randrange(L)
             S = rand_point(rng, T if rng.getrandbits(1) else None)
             B = rand_point(rng, T if rng.getrandbits(1) else None)
             for i in idxs + [rng.getrandbits(rng.choice([7, 14, 21, 32, 64]))]:
                 cs.append(Case("onetime %s %s %s %d" % (hx(ed.compress(S)), hx(le(a)), hx(ed.compress(B)), i), "onetime"))
-        for _ in range(60 if q else 3000):
+        for _ in range(60 if q else 500):
             r, v = rng.choice([1, L - 1, rng.randrange(L), rng.randrange(L)]), rng.choice([1, rng.randrange(L)])
             S = rand_point(rng, T if rng.random() < 0.3 else None)
             cs.append(Case("sendrecv %s %s %s %d" % (hx(le(r)), hx(le(v)), hx(ed.compress(S)),
